@@ -23,6 +23,12 @@ Streams
              unchanged: an unusable project costs its own links only.
   multi    : real `load_external_modules` on 1-4 external projects (each: description exported / damaged, or
              one of the ways of failing to fetch it; local and remote) vs the model's `loadAll`.
+  node     : (round 4) the link of a graph node - `graphs.GraphData.get_node` / `BaseNode` on imported entities of every
+             class (local `pathlib` paths, remote URLs, falsy and odd URLs) and on entities of the project itself, under
+             several `parent_dir`, vs the model's `nodeUrl`; oracles: the node carries the imported URL; `relative_url`
+             keeps a textual link on the entity's URL.
+  (round 4) the pairs are built with `graph: true`: B calls A's procedures (subroutine, function, generic, type-bound;
+             from module procedures and from a main program) and the nodes of the inline SVG graphs count as links.
 """
 from __future__ import annotations
 
@@ -804,12 +810,135 @@ def lookup_stream(rep, drv, rng, n, stats):
     return len(reqs), bad
 
 
+# --------------------------------------------------------------------------- graph nodes (round 4)
+
+class _OwnEntity:
+    """an entity of B itself, as far as `BaseNode.__init__` looks at it"""
+
+    def __init__(self, name, url, visible):
+        self.name, self._url, self.visible, self.ident = name, url, visible, name.lower()
+
+    def get_dir(self):
+        return self._url.split("/")[0] if self._url and "/" in self._url else None
+
+    def get_url(self):
+        return self._url
+
+
+NODE_PARENT_DIRS = ["../", "../", "", "../../", "https://b.invalid/docs/"]
+NODE_LOCAL_BASES = ["/abs/A/doc", "/x", "/srv/docs/a.b", "/abs/with space/doc", "/home/u/http/doc", "/C:/a"]
+NODE_RELS = ["module/amod1.html", "type/atyp2.html", "proc/afun3.html", "interface/agen4.html",
+             "type/atyp2.html#boundprocedure-abnd5", "module/amod1.html#variable-avar6", "proc/a~2.html"]
+NODE_ODD_URLS = ["ftp://ex.invalid/a/module/m.html", "file:///abs/A/doc/module/m.html", "//ex.invalid/a/m.html",
+                 "A/doc/module/m.html", "mailto:x", "c:/docs/a/module/m.html", "1a:b/m.html", "module/m.html", "a+b.c-d:e"]
+
+
+def node_stream(rep, drv, rng, n, stats):
+    """`graphs.BaseNode` (through `GraphData.get_node`, as the graphs make their nodes) vs the model's `nodeUrl`:
+    the link a graph node gets, for entities imported from an external project (every class of ENTITIES; local
+    paths - `pathlib.Path`, as `dict2obj` makes them - and remote URLs; falsy URLs; names that are empty or written
+    like a link) and for entities of the project itself, under several `parent_dir`.
+    Property oracles (from the statement, on the real code alone): the node of an imported entity is linked to
+    exactly the URL it was imported with; `relative_url` (the template filter every textual link passes) turns
+    the link to an imported entity into one that, followed from the page, arrives at that same URL."""
+    ford_mod()
+    import ford.graphs as gr
+    import ford.sourceform as sf
+    import ford.output as fo
+    from ford.external_project import ENTITIES
+    classes = sorted({c.__name__ for c in ENTITIES.values()})
+    cases, reqs = [], []
+    for k in range(n):
+        pd = rng.choice(NODE_PARENT_DIRS)
+        name = rng.choice(["amod1", "Atyp2", "afun3", "AGEN4", "abnd5", "x_y", "a"])
+        r = rng.random()
+        if r < 0.7:
+            cls = rng.choice(classes)
+            q = rng.random()
+            if q < 0.45:
+                url = Path(rng.choice(NODE_LOCAL_BASES)) / rng.choice(NODE_RELS)
+                shape = "local"
+            elif q < 0.75:
+                url = urljoin(rng.choice(REMOTE_BASES) + "/", rng.choice(NODE_RELS))
+                shape = "remote"
+            elif q < 0.87:
+                url = rng.choice(["", None, 0, False])
+                shape = "falsy"
+                if rng.random() < 0.3:
+                    name, shape = rng.choice(["<a href='x'>y</a>", "<a href='/abs/q.html'>amod1</a>"]), "falsy:name-is-a-link"
+            else:
+                url = rng.choice(NODE_ODD_URLS)
+                shape = "odd"
+            if url and rng.random() < 0.05:
+                name, shape = "", shape + ":unnamed"
+            case = {"kind": "external", "class": cls, "name": name, "url": None if not url else str(url),
+                    "url_type": type(url).__name__, "parent_dir": pd, "shape": shape}
+            obj = getattr(sf, cls)(name, url)
+            req = ["c16.node", "=" + pd, "1", cls, "=" + name, "+" + str(url) if url else "-", "1"]
+        else:
+            url = rng.choice(NODE_RELS + [None])
+            vis = rng.random() < 0.8
+            case = {"kind": "own", "class": "FortranModule", "name": name, "url": url, "parent_dir": pd, "visible": vis,
+                    "shape": "own"}
+            obj = _OwnEntity(name, url, vis)
+            req = ["c16.node", "=" + pd, "0", "FortranModule", "=" + name, "+" + url if url else "-", "1" if vis else "0"]
+        gd = gr.GraphData(pd, False, False)
+        try:
+            if case["kind"] == "external" and case["class"] != "ExternalVariable":
+                node = gd.get_node(obj)
+            else:
+                node = gr.BaseNode(obj, gd)       # (a variable is never a node: the branch for objects not turned into strings)
+            u = node.attribs.get("URL")
+            got = ["none"] if u is None else ["some", str(u)]
+        except Exception as e:
+            got = ["err", type(e).__name__]
+        case["impl"] = got
+        cases.append(case)
+        reqs.append(req)
+        key = f"node:{case['shape']}:{got[0]}"
+        stats[key] = stats.get(key, 0) + 1
+        # ---- property oracles
+        # (judged for the classes the graphs make nodes of; a variable is only fed to `BaseNode` for the correspondence)
+        if case["kind"] == "external" and case["url"] and not case["shape"].endswith("unnamed") \
+                and case["class"] != "ExternalVariable":
+            if got != ["some", case["url"]]:
+                rep.failing_input(dict(case, stream="node", oracle="the graph node of an entity imported from an external "
+                                       "project is linked to the URL the entity was imported with",
+                                       why=f"node link {got} instead of {case['url']}"), None)
+            if case["shape"] in ("local", "remote"):
+                page = Path("/out/B/doc") / rng.choice(["module/bmod.html", "index.html", "page/sub/dir/p.html", "proc/b.html"])
+                try:
+                    txt = str(fo.relative_url(obj, page))
+                    m = re.search(r"href='([^']*)'", txt)
+                    href = m.group(1) if m else None
+                except Exception as e:
+                    href = f"<{type(e).__name__}>"
+                want = case["url"]
+                arrives = href if (href or "").startswith("http") else \
+                    os.path.normpath(os.path.join(str(page.parent), href)) if href and not href.startswith("<") else href
+                stats["relurl:" + case["shape"]] = stats.get("relurl:" + case["shape"], 0) + 1
+                if arrives != (want if case["shape"] == "remote" else os.path.normpath(want)):
+                    rep.failing_input(dict(case, stream="node", page=str(page), href=href,
+                                           oracle="a textual link to an imported entity, made relative to the page by the "
+                                                  "`relurl` filter, still leads to the entity's URL",
+                                           why=f"followed from {page} it arrives at {arrives}"), None)
+    got = drv.batch(reqs)
+    bad = 0
+    for case, r, g in zip(cases, reqs, got):
+        if g != case["impl"]:
+            bad += 1
+            rep.tie_broken(f"correspondence node: model nodeUrl {g} vs graphs.BaseNode {case['impl']} on {short(case)}",
+                           dict(case, stream="node", request=r, model=g))
+    return len(cases), bad
+
+
 # --------------------------------------------------------------------------- HTML observation
 
 class PageScan(HTMLParser):
     def __init__(self):
         super().__init__(convert_charrefs=True)
         self.links = []    # (href, text)
+        self.svg = set()   # those of them that are nodes of a graph (<a xlink:href=...> inside an inline SVG)
         self.ids = set()
         self._open = []
 
@@ -820,7 +949,9 @@ class PageScan(HTMLParser):
         if tag == "a" and d.get("name"):
             self.ids.add(d["name"])
         if tag == "a" and d.get("href") is not None:
-            self._open.append([d["href"], []])
+            self._open.append([d["href"], [], False])
+        elif tag == "a" and d.get("xlink:href") is not None:
+            self._open.append([d["xlink:href"], [], True])
 
     def handle_data(self, data):
         for o in self._open:
@@ -828,11 +959,18 @@ class PageScan(HTMLParser):
 
     def handle_endtag(self, tag):
         if tag == "a" and self._open:
-            href, parts = self._open.pop()
-            self.links.append((href, "".join(parts).strip()))
+            href, parts, svg = self._open.pop()
+            text = "".join(parts).strip()
+            if svg:
+                # the label of a procedure node is `[parent::][type%]name`: the entity named is the last part
+                text = text.rsplit("::", 1)[-1].rsplit("%", 1)[-1].strip()
+            self.links.append((href, text))
+            if svg:
+                self.svg.add(self.links[-1])
 
 
 _scan_cache: dict = {}
+_svg_cache: dict = {}
 
 
 def scan(path: Path):
@@ -842,7 +980,14 @@ def scan(path: Path):
         text = path.read_text(encoding="utf-8", errors="replace")
         p.feed(text)
         _scan_cache[key] = (p.links, p.ids, text)
+        _svg_cache[key] = p.svg
     return _scan_cache[key]
+
+
+def svg_links(path: Path) -> set:
+    """the (href, label) pairs of the page that are nodes of a graph"""
+    scan(path)
+    return _svg_cache[(str(path), path.stat().st_mtime_ns)]
 
 
 KIND_DIR = {"module": "module", "type": "type", "func": "proc", "sub": "proc", "generic": "interface",
@@ -908,24 +1053,54 @@ def satisfies(hit, ex, homes) -> bool:
     return cls == "internal" and f is not None and f.is_file() and tracer in scan(f)[2]
 
 
-def check_links(B, A, bdoc: Path, adoc: Path, remote_base, homes, stats):
-    """Property oracle on B's output.  Returns a list of failure dicts."""
+def b_names(B) -> set:
+    """every identifier B declares itself (lower case)"""
+    out = set()
+    for m in B["modules"]:
+        out.add(m["name"].lower())
+        for t in m["types"]:
+            out.add(t["name"].lower())
+            out |= {c["name"].lower() for c in t.get("comps", [])}
+        for s_ in m["subs"]:
+            out.add(s_["name"].lower())
+            out |= {a["name"].lower() for a in s_.get("args", [])}
+        out |= {v["name"].lower() for v in m["vars"]}
+    if B.get("program"):
+        out.add(B["program"]["name"].lower())
+    return out
+
+
+def check_links(B, A, bdoc: Path, adoc: Path, remote_base, homes, stats, graphs: bool = False):
+    """Property oracle on B's output.  Returns a list of failure dicts.
+    Links are the <a href> of the pages *and* the nodes of the graphs drawn on them (<a xlink:href> of the inline
+    SVG: used modules, called procedures, extended types, types of components)."""
     fails = []
     by_name = {}
     for tr, (kind, lname, hs, pub) in homes.items():
         by_name.setdefault(lname, []).append((kind, hs, tr))
+    own = b_names(B)
     n_out = 0
     page_links = {}
     reported = set()      # (page, href, text) of outward links already found faulty by the per-link oracle
     for page in sorted(bdoc.rglob("*.html")):
         links, ids, text = scan(page)
+        nodes = svg_links(page)
         res = []
         for href, text_ in links:
             cls, f, frag = resolve_href(href, page, bdoc, adoc, remote_base)
             res.append((href, text_, cls, f, frag))
             if cls != "outward":
+                # a link that carries the name of an entity of A - and of nothing B declares - is a link into A:
+                # when it leads to a file that exists neither in A's nor in B's output it is a dead link into A
+                if f is not None and text_.lower() in by_name and text_.lower() not in own and not f.exists():
+                    fails.append({"oracle": "a link named after an entity of A leads into A's documentation",
+                                  "page": str(page.relative_to(bdoc)), "href": href, "text": text_,
+                                  "graph_node": (href, text_) in nodes, "resolves_to": str(f)})
+                    reported.add((page, href, text_))
                 continue
             n_out += 1
+            if (href, text_) in nodes:
+                stats["outward-links:graph-nodes"] = stats.get("outward-links:graph-nodes", 0) + 1
             rel = str(page.relative_to(bdoc))
             if not f.is_file():
                 fails.append({"oracle": "outward link target exists", "page": rel, "href": href, "text": text_,
@@ -949,6 +1124,8 @@ def check_links(B, A, bdoc: Path, adoc: Path, remote_base, homes, stats):
     stats["outward-links"] = stats.get("outward-links", 0) + n_out
     # expected references
     for ex in B["expect"]:
+        if ex.get("graph") and not graphs:
+            continue          # a reference that is visible in a graph only, and B was built without graphs
         d, name = ex["page"]
         page = bdoc / d / f"{name.lower()}.html"
         if not page.is_file():
@@ -958,6 +1135,12 @@ def check_links(B, A, bdoc: Path, adoc: Path, remote_base, homes, stats):
         hits = [r for r in page_links.get(page, []) if r[1].lower() in texts]
         side, tracer = ex["target"]
         stats["ref:" + ex["why"]] = stats.get("ref:" + ex["why"], 0) + 1
+        if ex.get("graph"):
+            nodes = svg_links(page)
+            if not any((h[0], h[1]) in nodes for h in hits):
+                fails.append({"oracle": "reference is linked", "page": str(page.relative_to(bdoc)), "expect": ex,
+                              "why": "no node of a graph on the page carries that name and a link"})
+                continue
         if not hits:
             fails.append({"oracle": "reference is linked", "page": str(page.relative_to(bdoc)), "expect": ex})
             continue
@@ -1036,6 +1219,17 @@ def classify_link(fail, A=None, a_opts=None) -> str | None:
         if undisplayed_parent_member(A, a_opts or {}, "type/" + Path(f).name if "/type/" in f else f, fail.get("text", "")):
             return "C16-inherited-member-url-of-undisplayed-parent"
     ex = fail.get("expect") or {}
+    if A is not None and fail.get("oracle") == "reference to an entity of A is linked to A's page for it" \
+            and ex.get("ford_link") and str(ex.get("why", "")).startswith("link to procedure"):
+        # an unqualified [[name]] to a module procedure: every link with that text leads to the page of a type T of A
+        # and there to the anchor of T's type-bound procedure with the same identifier
+        name = ex["text"].lower()
+        pat = re.compile(r"(?:^|/)type/([^/#]+)\.html#boundprocedure-" + re.escape(name) + r"$", re.IGNORECASE)
+        binders = {t["name"].lower() for m_ in A["modules"] for t in m_["types"]
+                   if any(b["name"].lower() == name for b in t["bound"])}
+        links = fail.get("links_with_that_text", [])
+        if links and all((mm := pat.search(h)) and mm.group(1).lower() in binders for h in links):
+            return "C16-unqualified-link-finds-binding-first"
     if ex.get("cross_kind") and fail.get("oracle") == "a name B defines itself is linked to B's own entity" \
             and fail.get("went") == "outward":
         return "C16-unqualified-link-prefers-external"
@@ -1147,7 +1341,7 @@ def pair_case(rep, drv, rng, d: Path, k: int, tier: str, stats, docs_out, counte
     b_files = G.render_b(B, rng)
     a_opts = dict(rng.choice(A_OPTION_SETS))
     rebuilt = rng.random() < 0.35
-    base_case = {"stream": "pairs", "index": k, "mode": mode, "A": A, "B": {"modules": B["modules"], "expect": B["expect"]},
+    base_case = {"stream": "pairs", "index": k, "mode": mode, "A": A, "B": {"modules": B["modules"], "expect": B["expect"], "program": B.get("program")},
                  "a_files": a_files, "b_files": b_files, "a_options": a_opts, "rebuilt": rebuilt}
     shutil.rmtree(d / "A", ignore_errors=True)
     ford = ford_mod()
@@ -1246,11 +1440,14 @@ def pair_case(rep, drv, rng, d: Path, k: int, tier: str, stats, docs_out, counte
         stats[f"pair:several-externals:A-{place}"] = stats.get(f"pair:several-externals:A-{place}", 0) + 1
         for kd in kinds:
             stats["pair:sibling:" + kd] = stats.get("pair:sibling:" + kd, 0) + 1
+    # B's graphs (uses / calls / inheritance / component types): their nodes are links as well
+    graphs = k % 8 != 7
+    stats[f"pair:graphs:{'on' if graphs else 'off'}"] = stats.get(f"pair:graphs:{'on' if graphs else 'off'}", 0) + 1
     with patched_fetch(adoc, base=written, extra=served):
-        rb = run_b(d, b_files, ext_value)
+        rb = run_b(d, b_files, ext_value, {"graph": "true"} if graphs else None)
     counters["runs"] += 1
     bcase = dict(base_case, external=ext_value, other_external_projects=siblings, has_ford_links=has_links,
-                 description=None)
+                 description=None, b_graphs=graphs)
     stats[f"pair:{mode}:{'links' if has_links else 'nolinks'}"] = stats.get(f"pair:{mode}:{'links' if has_links else 'nolinks'}", 0) + 1
     if mode == "remote":
         shape = ("host-only" if urlsplit(written).path in ("", "/") else "with-path") + (":slash" if written.endswith("/") else ":noslash")
@@ -1261,7 +1458,8 @@ def pair_case(rep, drv, rng, d: Path, k: int, tier: str, stats, docs_out, counte
         c = dict(bcase, why="B's run aborted", exc=rb["exc"], trace=(rb.get("trace") or "")[-600:])
         rep.failing_input(c, classify_abort(c))
     else:
-        fails, n_out = check_links(B, A, d / "B" / "doc", adoc, written if mode == "remote" else None, homes, stats)
+        fails, n_out = check_links(B, A, d / "B" / "doc", adoc, written if mode == "remote" else None, homes, stats,
+                                   graphs=graphs)
         counters["pairs_checked"] += 1
         if n_out > 0:
             counters["nontrivial"].add(common.digest([a_files, b_files, mode]))
@@ -1470,8 +1668,18 @@ def run(tier: str, seed: int, replay: str | None = None) -> int:
     n_import = 400 if tier == "quick" else 4000
     n_lookup = 1500 if tier == "quick" else 15000
     n_multi = 300 if tier == "quick" else 3000
+    n_node = 1500 if tier == "quick" else 15000
     docs: list = []
     ev = 0
+    import time
+    clock = {"t": time.time()}
+    secs: dict = {}
+
+    def lap(name):
+        now = time.time()
+        secs[name] = round(now - clock["t"], 1)
+        clock["t"] = now
+
     with common.scratch_dir() as d:
         # ---------------- export stream (correlate only, many option sets)
         bad_export = 0
@@ -1505,24 +1713,32 @@ def run(tier: str, seed: int, replay: str | None = None) -> int:
             if len(docs) < 60:
                 docs.append(real_doc)
             ev += 1
+        lap("export")
         # ---------------- pairs (end to end)
         for k in range(n_pairs):
             pair_case(rep, drv, rng, d, k, tier, stats, docs, counters)
+        lap("pairs")
         # ---------------- import + lookup streams
         if not docs:
             docs.append({"ford-metadata": {"version": "0"}, "modules": []})
         n_imp, bad_imp = import_stream(rep, drv, rng, docs, n_import, stats)
+        lap("import")
         n_lk, bad_lk = lookup_stream(rep, drv, rng, n_lookup, stats)
+        lap("lookup")
         n_mu, bad_mu = multi_stream(rep, drv, random.Random(seed * 7919 + 1605), docs, n_multi, stats)
+        lap("multi")
+        n_nd, bad_nd = node_stream(rep, drv, random.Random(seed * 6007 + 1604), n_node, stats)
+        lap("node")
     drv.close()
     rep.coverage.update(
-        evaluations=ev + n_imp + n_lk + n_mu + counters["runs"],
+        evaluations=ev + n_imp + n_lk + n_mu + n_nd + counters["runs"],
         distinct_nontrivial=len(counters["nontrivial"]),
         rule="pairs: distinct (A sources, B sources, mode) whose B output contains at least one link that leaves B "
              "and was checked against A's output; export/import/lookup stream sizes are listed separately",
         samples=counters["samples"],
-        traces_validated_against_impl=ev + counters["export_cmp"] + n_imp + n_lk + n_mu,
+        traces_validated_against_impl=ev + counters["export_cmp"] + n_imp + n_lk + n_mu + n_nd,
         export_cases=ev + counters["export_cmp"], import_cases=n_imp, lookup_cases=n_lk, multi_project_cases=n_mu,
+        graph_node_cases=n_nd, stream_seconds=secs,
         end_to_end_runs=counters["runs"], pairs_with_links_checked=counters["pairs_checked"],
         correspondence_disagreements=len(rep.tie_breaks),
         input_distribution=dict(sorted(stats.items())),
@@ -1541,6 +1757,7 @@ def run(tier: str, seed: int, replay: str | None = None) -> int:
         "path segments and for the relative references get_url produces (dir/file.html#anchor) only",
         "pathlib's special case of exactly two leading slashes is not modelled",
         "Jinja templates / Markdown are on the implementation side only; their links are judged by the oracle on the HTML",
-        "calls to external procedures are only visible in graphs, which are switched off in the generated pairs",
+        "graph nodes: HYPERLINK_RE is modelled on the strings FortranBase.__str__ produces for URLs without quote "
+        "characters and names without <, >, quotes; graphs saved to graph_dir and an absolute project_url of B are not observed",
     ]
     return rep.finish(lean)
